@@ -27,7 +27,7 @@ func TestC05NonceStore(t *testing.T) {
 	defer vt.Watch("TestC05NonceStore", 120*time.Second)()
 	rec := vt.For("C05")
 	rec.Rule("store level, virtual time, drivers memory / badger in-memory / badger on disk with close+reopen: rules submit(id in {a,b,c}, now+delta) with delta from {-15min-1ns,-15min,-15min+1ns,-1s,0,+1ns,+1s,+20min,+2h} or a range, advance(d<=40min incl. the 15-minute boundary +-1ns/1s), reopen, race(id,nonce,k copies in parallel goroutines); model: accept <=> nonce > last accepted for that id and nonce > now-15min (equality don't-care); racing duplicates: at most one accepted, exactly one when the model accepts; non-trivial = a replay/stale rejection after >=1 acceptance; distinct by driver + (op, delta class, verdict) sequence")
-	rapid.Check(t, func(rt *rapid.T) {
+	check(t, func(rt *rapid.T) {
 		rapid.SyncTest(rt, func(rt *rapid.T) {
 			driver := rapid.SampledFrom([]string{"memory", "badger", "badger", "badgerdisk"}).Draw(rt, "driver")
 			if driver == "badgerdisk" && !vt.Thorough() && rapid.IntRange(0, 3).Draw(rt, "diskQuick") > 0 {
@@ -229,7 +229,7 @@ func TestC05Replay(t *testing.T) {
 	defer vt.Watch("TestC05Replay", 120*time.Second)()
 	rec := vt.For("C05")
 	rec.Rule("pool level, virtual time: a correctly signed vipnode_update / vipnode_peer / pool_withdraw / pool_addNode / vipnode_connect is captured (signature, id, nonce, params) and submitted again verbatim - immediately, after advance(d up to 40min), after close+reopen of the on-disk store, or as two copies racing - while the owner keeps sending newer requests; oracle: every copy after the first is refused with an invalid-nonce verification error and the full-state digest is unchanged (one charge, one payout); racing copies: exactly one honoured; non-trivial = every case (a replay after an acceptance); distinct by (driver, endpoint, replay mode, delay class)")
-	rapid.Check(t, func(rt *rapid.T) {
+	check(t, func(rt *rapid.T) {
 		rapid.SyncTest(rt, func(rt *rapid.T) {
 			driver := rapid.SampledFrom([]string{"memory", "badger", "badgerdisk"}).Draw(rt, "driver")
 			if driver == "badgerdisk" && !vt.Thorough() && rapid.IntRange(0, 2).Draw(rt, "diskQuick") > 0 {
